@@ -8,8 +8,8 @@ CONSTANTS
   MaxEvents = 1
   PhaseSet = {"created", "offerMade", "gathering", "checking", "iceConnected", "dtlsHandshaking", "dtlsConnected", "sctpConnecting", "channelsOpen", "renegotiating"}
   Ev1Set = {"Close", "Drop", "PeerCloseNotify", "PeerSctpAbort", "PeerSctpShutdown", "IceStop", "SocketLoss", "BlockedSender"}
+  WfcBudget = 2
   Ev2Set = {"Close"}
-  ScenarioPlans <- MCPlans
 INVARIANTS TypeOK ReasonSet CloseAtMostOnce
 PROPERTIES TerminalIsStable CloseEventually ReportsTerminal LocalEndsClosed NoHang Released
 ACTION_CONSTRAINT NoEmit
